@@ -553,7 +553,9 @@ class Run:
             origin_waiting=sorted(_idkey(":".join(str(k).split(":")[-2:])) for k in node._origin_waiting_answer),
             sent_answers=_sent_answers_view(node._sent_answers),
             ready=[a.is_ready.is_set() for a in self.apps],
-            answer_waiting=[sorted(a._answer_waiting) for a in self.apps],
+            # keys are (hop-by-hop, end-to-end) pairs (before repair 18d5bde: the hop-by-hop identifier alone); the model's
+            # observation compares the hop-by-hop identifiers of the waiting senders
+            answer_waiting=[sorted((k[0] if isinstance(k, tuple) else k) for k in a._answer_waiting) for a in self.apps],
             stopping=node._stopping)
 
     def shutdown(self):
